@@ -108,6 +108,10 @@ impl<T> ReplicaArc<Mutex<T>> {
         #[cfg(feature = "verif_hooks")]
         crate::verif_hooks::before_key_try(&*self.inner);
         let locked = Arc::clone(&self.inner).try_lock_owned();
+        #[cfg(feature = "verif_hooks")]
+        if locked.is_err() {
+            crate::verif_hooks::between(8);
+        }
         match locked {
             Ok(inner) => Ok(ReplicaOwnedMutexGuard { inner }),
             Err(_) => Err(self),
